@@ -147,3 +147,29 @@ Proof.
   destruct (fqi_loop t (length toks) toks cur fuel [] (le_n _) Hf) as (s' & out' & Hl & Hfa).
   rewrite Hl. cbn [after app]. exists s', out'. split; [reflexivity|exact Hfa].
 Qed.
+
+(* ---- Reader(r): forwards the items of newReader(r).iter() --------------------------------------------- *)
+Lemma copy_loop_sc {A R} (items : list A) : forall j (out : list A) (rd : go_scanner),
+  go_iter (R := R) (fun p => (fun _ (x : A) '(out__, rd__) => (let out__ := out__ ++ [x] in let t__2 := true in (if (negb t__2) then Brk (out__, rd__) else Next (out__, rd__)))) (fst p) (snd p))
+    (combine (zseq j (length items)) items) (out, rd)
+  = Next (out ++ items, rd).
+Proof.
+  induction items as [|x items IH]; intros j out rd; cbn [length].
+  - cbn. rewrite app_nil_r. reflexivity.
+  - rewrite ImpProofsB.zseq_cons. cbn [combine go_iter fst snd negb]. rewrite IH, <- app_assoc. reflexivity.
+Qed.
+
+Theorem imp_fastq_Reader fuel cur (toks : list bytes) t : (length toks + 1 < fuel)%nat ->
+  exists s' out, imp_fastqrd_Reader fuel (Scanner cur toks (scan_code t) false) = Ret (s', out)
+    /\ Forall2 fq_item_ok (decode_toks t toks) out.
+Proof.
+  intros Hf. unfold imp_fastqrd_Reader. cbv zeta.
+  destruct (imp_fastq_iter fuel cur toks t Hf) as (s' & out & Hi & Hfa). rewrite Hi. cbn [go_call].
+  exists s', out. split; [|exact Hfa].
+  unfold go_range, indexed.
+  match goal with |- context [go_iter ?f ?l ?s] =>
+    replace (go_iter f l s) with (Next (R := go_scanner * list (imp_fastqrd_Fastq * Z)) ([] ++ out, s')) end.
+  - reflexivity.
+  - symmetry. etransitivity; [|apply (copy_loop_sc out 0 [] s')].
+    apply ImpProofs.go_iter_ext. intros [j [fa e]] [o r] _. reflexivity.
+Qed.
